@@ -257,7 +257,9 @@ def run(chk):
                 "(Rat) with and without optimize(); non-trivial = optimiser changed the AST. Lean model of optimizer.py vs the real optimize() "
                 "on every captured part list and on seeded synthetic ones (exact structure); optimizeCert evaluated per part list.")
     chk.trusted += ["harness/lnodes_eval.py (independent exact evaluator used as the property's oracle for folding)",
-                    "IEEE NaN/Inf behaviour of 0*x folding is outside the real-number theorems"]
+                    "IEEE NaN/Inf behaviour of 0*x folding is outside the real-number theorems",
+                    "the semantics is typeless over a field: integers are embedded in R and int/int division is field division, so folds that change the "
+                    "dtype of a literal (1.0*LiteralInt(3) -> LiteralInt 3) are sound only because C integer division is outside the semantics"]
     chk.lean("FfcxProofs.C17", THEOREMS)
     with lean.Driver("driver") as d:
         fold_correspondence(chk, d)
